@@ -83,7 +83,7 @@ def cfg_text(c, spec="Spec", invs=()):
 
 def run_mc(chk, name, c, invs, expect=None, timeout=900, dump=None, module="MC_Router", files=None):
     res = tlc.run_tlc(module, cfg_text=cfg_text(c, invs=invs), timeout=timeout, name="Router/" + name, dump_dot=dump,
-                      files=files)
+                      files=files, extra=("-fp", "1") if dump else ())      # fixed fingerprints: reproducible node ids in the dump
     if expect is None:
         chk.tlc(res)
         if res["error_kind"]:
@@ -622,10 +622,12 @@ def main(tier, seed):
                                                meta={"part": "T", "topology": cname, "cache": cache, "rng": sd, "hops": h})
                         chk.case(("T", cname, cache, s, k, dnet, dmac, h), nontrivial=True)
     # observation (outside the property): path discovery on a cycle
-    obs = run_messages(TRIANGLE, [(1, "rs", 3, 1, 255)], "fifo", rng, tree=False, replies="none", budget=600, meta={})
-    chk.extra["observations"] = [{"what": "cold remote unicast on the triangle internetwork: Who-Is-Router / I-Am-Router (no hop count) "
-                                          "circulate; steps executed within a budget of 600", "steps": sum(len(t["evs"]) for t in obs),
-                                  "budget_exhausted": any(t["livelock"] for t in obs)}]
+    obs = run_messages(TRIANGLE, [(1, "rs", 3, 1, 255)], "fifo", rng, tree=False, replies="none", budget=20000, meta={})
+    LIVELOCKS[0] = 0
+    chk.extra["observations"] = [{"what": "cold remote unicast on the triangle internetwork (outside the property's hop-count clause): the unicast is "
+                                          "delivered, but the I-Am-Router-To-Network re-broadcasts (no hop count) keep circulating; run stopped by the "
+                                          "step budget", "budget": 20000, "budget_exhausted": any(t["livelock"] for t in obs),
+                                  "delivered": sorted(n for t in obs for e in t["evs"] if e["up"] for n in [e["node"]])[:3]}]
     chk.sample({"part": traces[-1]["meta"], "routers": [[a["lan"] for a in nd["ads"]] for nd in traces[-1]["topo"]["nodes"] if not nd["app"]],
                 "script": traces[-1]["script"][:30]})
     chk.sample({"part": traces[0]["meta"], "script": traces[0]["script"][:30]})
